@@ -322,6 +322,21 @@ def check(ctx: Ctx) -> None:
                     if what == "endmarker":
                         ob.violation(fi, c, "endmarker delivered outside _no_longer_opened / setcallback")
 
+    with ctx.obligation("C10.j", "item-queue-unbounded") as ob:
+        # the receiver thread puts items (and the end marker) into the channel queue while holding _receivelock, which setcallback
+        # needs for draining it: a bounded queue lets the receiver block there for good
+        fin = repo.func(f"{GB}.Channel.__init__")
+        qs = [n_ for n_ in repo.own_nodes(fin) if isinstance(n_, ast.Assign) and any(unparse(t) == "self._items" for t in n_.targets)]
+        ob.require(len(qs) >= 1, "Channel.__init__: the item queue is not created")
+        for q in qs:
+            v = q.value
+            bounded = isinstance(v, ast.Call) and (any(not (isinstance(a, ast.Constant) and a.value in (0, None)) for a in v.args) or
+                                                   any(k.arg == "maxsize" and not (isinstance(k.value, ast.Constant) and k.value.value in (0, None)) for k in v.keywords))
+            ob.site(fin, q, "channel item queue created without a size bound", ok=not bounded)
+            if bounded:
+                ob.violation(fin, q, "the channel's item queue is bounded: once it is full the receiver thread blocks in put() while holding _receivelock, setcallback can "
+                                     "never drain it, and neither the queued items nor the endmarker reach the callback", construct="bounded item queue")
+
     check_closers_serialised(ctx, "C10.e")
     from .C04 import check_close_all
     check_close_all(ctx, "C10.h")
